@@ -245,6 +245,11 @@ TOOL_CONTENTS = [
     "===D===\n" + "  " * 150 + "K::1\n===END===\n", "é" * 50, "===D===\nMETA:\n  TYPE::X\n  CONTRACT::[FIELD[A]::REQ∧ENUM[x,y]]\nA::z\n===END===\n", "===SCH===\nMETA:\n  TYPE::PROTOCOL_DEFINITION\n  VERSION::\"1.0\"\nPOLICY:\n  VERSION::\"1.0\"\n  UNKNOWN_FIELDS::REJECT\nFIELDS:\n  A::[\"x\"∧REQ∧REGEX[\"(\"]]\n===END===\n",
     "===D===\nA::" + "9" * 5000 + "\n===END===\n", "===D===\n§1::S\n  K::NAME<>\n===END===\n", "\ufeff===D===\nA::1\n===END===\n", "===D===\r\nA::1\r\n===END===\r\n",
 ]
+TOOL_CONTENTS += [
+    # receipt-bearing constructs with non-string values (the tools copy parser receipts into their envelopes)
+    "===D===\nPATTERN::[a,b]\n===END===\n", '===D===\nREGEX::["x"∧REQ→§SELF]\n===END===\n', "===D===\nPATTERN::\n```\nraw\n```\n===END===\n", "===D===\nL::[PATTERN::[a,b],REGEX::5,ENUM::\"x\"]\n===END===\n",
+    "===D===\nK::a b c\nK::1 2\nK::true x\nK::null y\nV::1.2.3 beta\nF::A->B->C\nT::a vs b vs c\nM::[k::[i::1]]\nX::[1,2\nY::z\n===END===\n", "===D===\nbare line\nK::v\nK::w\n===END===\n", "===D===\nS::REQ∧OPT\nD::" + "[" * 7 + "x" + "]" * 7 + "\n===END===\n",
+]
 SCHEMAS = ["META", "SESSION_LOG", "NOPE", "", "meta", "M" * 300, "../x", "DEBATE_TRANSCRIPT", "SKILL", "TEST_HOLOGRAPHIC"]
 
 
@@ -275,8 +280,27 @@ def tool_calls(content: str, d: str):
     return out
 
 
+def _model_text(idx: int) -> str:
+    """a lenient rendering of a document of the content model (every value kind at every position, constructor keys in maps ...)"""
+    from verif.bounded import model as M
+
+    docs = _MODEL.setdefault("docs", list(M.documents(2, 2, 0, 3000)))
+    rng = random.Random(idx)
+    m = docs[(idx * 37) % len(docs)]
+    rs = list(M.render_all_lenient(m, 4, rng))
+    return rs[idx % len(rs)][0]
+
+
+_MODEL: dict = {}
+
+
 def _tool_one(idx: int):
-    content = TOOL_CONTENTS[idx] if idx < len(TOOL_CONTENTS) else _rand_text_for(idx * 2 + (idx % 2))
+    if idx < len(TOOL_CONTENTS):
+        content = TOOL_CONTENTS[idx]
+    elif idx % 3 == 0:
+        content = _model_text(idx)
+    else:
+        content = _rand_text_for(idx * 2 + (idx % 2))
     d = tempfile.mkdtemp(prefix="vf-c20-")
     n = 0
     try:
@@ -322,7 +346,7 @@ def ob_tools(ctx: Ctx) -> Outcome:
     d = tempfile.mkdtemp(prefix="vf-c20-")
     per = len(tool_calls("", d))
     shutil.rmtree(d, ignore_errors=True)
-    extra = dict(bound=f"{n} contents ({len(TOOL_CONTENTS)} hand-picked: empty, broken, tabs, NUL, zones, 120-deep brackets, 150-level indentation, 5000-digit number, CONTRACT, bad REGEX schema, BOM, CRLF ...; the rest random / mutated packaged documents) x {per} calls each: octave_validate with {len(SCHEMAS)} schema arguments (known, unknown, empty, lower-case, 300 characters, path-like) x 9 flag sets, octave_eject 5 formats x 4 modes x schemas, octave_compile_grammar by content and by schema, octave_write content / changes / normalize with 8 flag sets, octave_validate(file_path); every result must be a dict with status or validation_status and pass json.dumps", evaluations=res["evaluations"] * per, distinct_nontrivial=res["evaluations"], rule="a case is one content through all tool calls")
+    extra = dict(bound=f"{n} contents ({len(TOOL_CONTENTS)} hand-picked: empty, broken, tabs, NUL, zones, 120-deep brackets, 150-level indentation, 5000-digit number, CONTRACT, bad REGEX schema, BOM, CRLF ...; receipt-bearing constructs with list / holographic / zone values; the rest lenient renderings of content-model documents, random strings and mutated packaged documents) x {per} calls each: octave_validate with {len(SCHEMAS)} schema arguments (known, unknown, empty, lower-case, 300 characters, path-like) x 9 flag sets, octave_eject 5 formats x 4 modes x schemas, octave_compile_grammar by content and by schema, octave_write content / changes / normalize with 8 flag sets, octave_validate(file_path); every result must be a dict with status or validation_status and pass json.dumps", evaluations=res["evaluations"] * per, distinct_nontrivial=res["evaluations"], rule="a case is one content through all tool calls")
     if wits:
         return Outcome.refuted("real tools", wits[:20], **extra)
     return Outcome.ok("real tools", **extra)
